@@ -26,6 +26,8 @@ def sources(qs, nparts=16):
                 out.append('  if(mode=="mutators"){ %s }' % ' '.join('bat::mutators<Ad_%s<%s>>("%s", seed, n);' % (n, T, n) for T, _ in NUMS))
                 out.append('  if(mode=="mathfn"){ %s }' % ' '.join('bat::mathfn<Ad_%s<%s>>("%s", seed, n);' % (n, T, n) for T, _ in NUMS))
                 out.append('  if(mode=="compare"){ %s }' % ' '.join('bat::compare_grid<Ad_%s<%s>>("%s", seed, n, 40, true);' % (n, T, n) for T, _ in NUMS))
+            if n in qgen.NORMALISED:
+                out.append('  if(mode=="compare"){ %s }' % ' '.join('bat::compare_normalised<Ad_%s<%s>>("%s", seed, n);' % (n, T, n) for T, _ in NUMS))
             out.append('  if(mode=="composite"){ %s }' % ' '.join('bat::composite<Ad_%s<%s>>("%s");' % (n, T, n) for T, _ in NUMS))
             out.append('  if(mode=="layout"){ %s }' % ' '.join('bat::layout<Ad_%s<%s>>("%s");' % (n, T, n) for T, _ in NUMS))
             casts = ' '.join('bat::cast_pair<Ad_%s<%s>, Ad_%s<%s>>("%s", seed, n, %s);' % (n, A, n, B, n, norm)
